@@ -200,6 +200,15 @@ CHECKS["C18"]["text"] += " Large documents: a 3000-item plugin list (100 KiB) an
 CHECKS["C20"]["text"] += " Two concurrent callers (every ordered pair of 5 representative calls, incl. the same call twice) under all schedules up to 2 preemptions at statement granularity: plugins/allocators is instrumented for this check."
 CHECKS["C20"]["engine"] = "E3+E2"
 CHECKS["C20"]["technique"] += "; plus stateless model checking of two concurrent calls under the cooperative scheduler"
+# ---- additions of seed round 11
+CHECKS["C02"]["text"] += " A second aging operation lets two days pass (own flag in the state key)."
+for k in ("C04","C05","C06","C07"):
+    CHECKS[k]["text"] += " Several allocators of different geometry alive in one process, created one after the other and used in turn."
+CHECKS["C12"]["text"] += " E2 part: two datagrams in flight at once (relayed through different relay agents / direct with forced buffer reuse) through the real Serve loop under all schedules up to the preemption bound; every reply mirrors the relay layers of its own request."
+CHECKS["C12"]["engine"] = "E3+E2"
+CHECKS["C12"]["technique"] += "; plus stateless model checking of two datagrams in flight (scenarios S5, S5c)"
+CHECKS["C17"]["text"] += " Irrelevant-request-option closure: a base request (full parameter request list) is repeated with every other option code (incl. the plugin's own, four payload shapes); the plugin's options in the reply must not change."
+CHECKS["C19"]["text"] += " The state graphs of range and prefix (as in C02/C08: requests, restarts, aging) are explored breadth-first within a time budget for panics of an accepted configuration."
 ALL = ["C%02d" % i for i in range(1, 21)]
 NA_REASON = "check not built yet in this session (planned, see DESIGN.md section 5); will be claimed once its machinery exists"
 m = {
